@@ -13,6 +13,7 @@ import (
 	"go/scanner"
 	"go/token"
 	"math/big"
+	"strconv"
 	"strings"
 )
 
@@ -24,6 +25,7 @@ type (
 		Int  *big.Int // integer literal
 		Bool *bool
 		Str  *string
+		Flt  *float64 // floating-point literal
 	}
 	CSel struct {
 		X    CExpr
@@ -64,6 +66,8 @@ func (e *CLit) String() string {
 		return e.Int.String()
 	case e.Bool != nil:
 		return fmt.Sprint(*e.Bool)
+	case e.Flt != nil:
+		return strconv.FormatFloat(*e.Flt, 'g', -1, 64)
 	default:
 		return fmt.Sprintf("%q", *e.Str)
 	}
@@ -225,7 +229,7 @@ func (p *cparser) parseBin(prec int) CExpr {
 func (p *cparser) parseUnary() CExpr {
 	t := p.cur()
 	switch t.tok {
-	case token.SUB, token.NOT, token.XOR, token.ADD:
+	case token.SUB, token.NOT, token.XOR, token.ADD, token.AND:
 		p.i++
 		return &CUnary{t.tok.String(), p.parseUnary()}
 	case token.MUL:
@@ -278,6 +282,13 @@ func (p *cparser) parsePrimary() CExpr {
 			panic("bad int literal " + t.lit)
 		}
 		return &CLit{Int: n}
+	case token.FLOAT:
+		p.i++
+		f, err := strconv.ParseFloat(t.lit, 64)
+		if err != nil {
+			panic("bad float literal " + t.lit)
+		}
+		return &CLit{Flt: &f}
 	case token.CHAR:
 		p.i++
 		r := []rune(t.lit[1 : len(t.lit)-1])
